@@ -22,7 +22,9 @@ var aolURLs = []string{
 // separators, and two 70-byte names sharing a 69-byte prefix.
 func topicPool() []string {
 	long := strings.Repeat("t", 69)
-	return []string{"a", "ab", "abc", "a.b", "A", "a-b", "b", long + "1", long + "2", long}
+	// the last two are outside the documented charset: refused by stateless validation on a
+	// correct tree, but if a change lets them through they reach the genesis string keys
+	return []string{"a", "ab", "abc", "a.b", "A", "a-b", "b", long + "1", long + "2", long, "a/b", "a b"}
 }
 
 // genAolMsg draws one AOL message using the model to aim at existing or missing objects.
@@ -150,8 +152,9 @@ func (g *G) genAolGenesis(cdc codec.JSONCodec) json.RawMessage {
 		}
 		nT := 1 + g.intn("gen-topics", 4)
 		names := map[string]bool{}
+		valid := topicPool()[:10] // names inside the documented charset only: a genesis must be valid
 		for len(names) < nT {
-			names[pick(g, "gen-topic", topicPool())] = true
+			names[pick(g, "gen-topic", valid)] = true
 		}
 		gs.Owners[o.String()] = &aoltypes.Owner{TotalTopics: uint64(len(names))}
 		for _, name := range sortedKeys(names) {
